@@ -21,9 +21,9 @@ WideStrs == {BStr(<<>>), BStr(<<0>>), BStr(Txt(23, 0)), BStr(Txt(24, 0)),
 WideTags == {<<>>, <<1>>, <<18>>, <<24>>, Pow(1), FF(8)}
 
 \* map key order: keys of every head size and both string kinds, two pairs per map
-KeyInts == {UInt(<<>>), UInt(<<23>>), UInt(<<24>>), UInt(Pow(1)), UInt(Pow(2)), UInt(Pow(4)),
-            NInt(<<>>), NInt(<<24>>), NInt(Pow(1))}
-KeyStrs == {TStr(<<>>), TStr(<<97>>), TStr(<<98>>), TStr(<<97, 97>>)}
+KeyInts == {UInt(<<>>), UInt(<<24>>), UInt(Pow(1)), UInt(Pow(2)), NInt(<<>>), NInt(<<24>>)}
+KeyStrs == {TStr(<<>>), TStr(<<98>>), TStr(<<97, 97>>)}
+NoTags == {}
 
 \* two-byte length heads: strings of 255 and 256 bytes (TLC is slow on long sequences, so few items)
 LongInts == {UInt(<<>>)}
